@@ -12,6 +12,7 @@ import operator
 import numpy as np
 
 from glue.core import Data, DataCollection
+from glue.core.link_helpers import LinkSame
 from glue.core.component_id import ComponentID
 from glue.core.component_link import ComponentLink
 from glue.core.parse import ParsedCommand, ParsedSubsetState
@@ -27,7 +28,29 @@ from vf import common
 
 OPS = {"gt": operator.gt, "ge": operator.ge, "lt": operator.lt, "le": operator.le, "eq": operator.eq,
        "ne": operator.ne}
-CATS = ("a", "b", "c", "dd")
+CATS = ("a", "ab", "abc", "dd", "b")     # different widths, shared prefixes
+LAYOUTS = ["C", "C", "F", "transposed", "reversed", "strided"]
+INT_DTYPES = ["int64", "int64", "int32", "int16", "int8", "uint16", ">i4"]
+
+
+def with_layout(a, layout, rng=None):
+    """An array equal to `a` (same dtype, shape, values) with a different memory layout."""
+    a = np.asarray(a)
+    if layout == "C" or a.ndim == 0 or a.size == 0:
+        return np.ascontiguousarray(a)
+    if layout == "F":
+        return np.asfortranarray(a)
+    if layout == "transposed":
+        perm = list(range(a.ndim))[::-1]
+        inv = np.argsort(perm)
+        return np.ascontiguousarray(a.transpose(perm)).transpose(inv)
+    if layout == "reversed":
+        return np.ascontiguousarray(a[::-1])[::-1]
+    if layout == "strided":
+        big = np.zeros(a.shape[:-1] + (2 * a.shape[-1],), dtype=a.dtype)
+        big[..., ::2] = a
+        return big[..., ::2]
+    raise ValueError(layout)
 
 
 def _triple(w):
@@ -63,6 +86,11 @@ class World(object):
         self.coords = None
         self.u = None
         self.g = None
+        self.p = None       # pixel-aligned dataset with permuted axes (p axis j <-> d axis p_perm[j])
+        self.p_perm = None
+        self.t = None       # 1-d only: table joined to d on a bijective key
+        self.scale = {}     # name -> magnitude of the attribute's values (offsets of bounds are relative to it)
+        self.variants = {}  # name -> {"dtype": ..., "layout": ...}
 
     def names(self, *kinds):
         return [n for n, k in self.kinds.items() if k in kinds]
@@ -70,11 +98,19 @@ class World(object):
     def numeric(self):
         return self.names("stored", "int", "derived", "linked", "pixel", "world")
 
+    def on_p(self, mask_d):
+        """The mask on p that corresponds element by element to a mask on d (through the pixel links)."""
+        return np.transpose(np.asarray(mask_d), self.p_perm)
+
+    def on_d_from_t(self, mask_t):
+        """The mask on d that corresponds to a mask on the joined table t (bijective key)."""
+        return np.asarray(mask_t)[self.t_row_of_d]
+
     def full(self, name):
         return np.asarray(self.d[self.atts[name]])
 
 
-def make_world(rng, shape=None, coords="random", max_dim=3, max_len=5, nd_categorical=True):
+def make_world(rng, shape=None, coords="random", max_dim=3, max_len=5, nd_categorical=True, extras=True):
     W = World()
     if shape is None:
         shape = common.rand_shape(rng, max_dim, max_len)
@@ -86,22 +122,47 @@ def make_world(rng, shape=None, coords="random", max_dim=3, max_len=5, nd_catego
     cobj = common.make_coords(rng, nd, coords)
     kw = {} if cobj is None else {"coords": cobj}
     d = Data(label="d", **kw)
-    d.add_component(common.rand_floats(rng, shape), "v")
-    d.add_component(common.injective_floats(rng, shape), "w")
-    d.add_component(common.rand_ints(rng, shape), "i")
+    n = int(np.prod(shape))
+
+    def add(name, arr, kind, layout=None, scale=1.0):
+        layout = layout or rng.choice(LAYOUTS)
+        arr = with_layout(arr, layout)
+        d.add_component(arr, name)
+        W.atts[name], W.kinds[name] = d.id[name], kind
+        W.scale[name] = scale
+        W.variants[name] = {"dtype": str(arr.dtype), "layout": layout}
+
+    W.d, W.shape, W.nd, W.coords = d, tuple(shape), nd, coords
+    add("v", common.rand_floats(rng, shape), "stored")
+    add("w", common.injective_floats(rng, shape), "stored")
+    idt = rng.choice(INT_DTYPES)
+    ints = common.rand_ints(rng, shape)
+    add("i", (np.abs(ints) if idt.startswith("u") else ints).astype(idt), "int")
     # large-magnitude, closely spaced values (e.g. epoch time stamps): selections on it differ in membership while their
     # bounds agree to a relative 1e-9 - aimed at tolerance-based "nothing changed" shortcuts
-    d.add_component(1.6e9 + common.injective_floats(rng, shape, 0.0, 3.0 * int(np.prod(shape))), "big")
-    W.d, W.shape, W.nd, W.coords = d, tuple(shape), nd, coords
-    for n in ("v", "w", "big"):
-        W.atts[n], W.kinds[n] = d.id[n], "stored"
-    W.atts["i"], W.kinds["i"] = d.id["i"], "int"
+    add("big", 1.6e9 + common.injective_floats(rng, shape, 0.0, 3.0 * n), "stored")
+    if extras:
+        # tiny magnitude (absolute tolerances would merge everything), other dtypes, stride-0 and dask-backed columns
+        add("tiny", 1e-10 * common.injective_floats(rng, shape), "stored", scale=1e-10)
+        add("f4", common.injective_floats(rng, shape).astype(np.float32), "stored")
+        add("be", common.rand_floats(rng, shape, p_special=0.1).astype(">f8"), "stored")
+        add("u8", np.array([rng.randrange(0, 251) for _ in range(n)], dtype=np.uint8).reshape(shape), "int")
+        d.add_component(np.broadcast_to(rng.choice([0.0, 2.5, -1.0]), shape), "k0")
+        W.atts["k0"], W.kinds["k0"], W.scale["k0"] = d.id["k0"], "stored", 1.0
+        W.variants["k0"] = {"dtype": "float64", "layout": "broadcast"}
+        try:
+            if n == 0:
+                raise ImportError        # dask itself cannot index a zero-size array with a boolean mask
+            import dask.array as da
+            d.add_component(da.from_array(common.injective_floats(rng, shape), chunks=tuple(max(1, s // 2) for s in shape)),
+                            "dk")
+            W.atts["dk"], W.kinds["dk"], W.scale["dk"] = d.id["dk"], "dask", 1.0
+            W.variants["dk"] = {"dtype": "float64", "layout": "dask"}
+        except ImportError:
+            pass
     if nd == 1 or nd_categorical:
-        n = int(np.prod(shape))
-        d.add_component(common.rand_cats(rng, n, CATS).reshape(shape), "c")
-        d.add_component(common.rand_cats(rng, n, CATS[:3]).reshape(shape), "c2")
-        for nme in ("c", "c2"):
-            W.atts[nme], W.kinds[nme] = d.id[nme], "categorical"
+        add("c", common.rand_cats(rng, n, CATS).reshape(shape), "categorical", layout=rng.choice(["C", "F", "reversed"]))
+        add("c2", common.rand_cats(rng, n, CATS[:3]).reshape(shape), "categorical", layout="C")
     d.add_component_link(d.id["w"] * 2 + d.id["v"], "der")
     der2 = ComponentID("der2")
     d.add_component_link(ComponentLink([d.id["w"], d.id["i"]], der2, using=_halfsum))
@@ -115,10 +176,33 @@ def make_world(rng, shape=None, coords="random", max_dim=3, max_len=5, nd_catego
     # link target: g.x is derivable on d through a function link
     g = Data(label="g", x=np.arange(3.0))
     u = Data(label="u", q=np.arange(4.0))
-    dc = DataCollection([d, g, u])
+    datasets = [d, g, u]
+    # pixel-aligned dataset with permuted axes
+    perm = list(range(nd))
+    rng.shuffle(perm)
+    pdat = Data(label="p", z=np.arange(float(n)).reshape(tuple(shape[a] for a in perm)))
+    datasets.append(pdat)
+    if nd == 1 and extras and n > 0:
+        # joined table: every row of d has exactly one partner in t
+        order = list(range(n))
+        rng.shuffle(order)
+        add("kd", np.arange(n), "int", layout="C")
+        t = Data(label="t", key=np.array(order), tv=common.injective_floats(rng, (n,)),
+                 tc=common.rand_cats(rng, n, CATS[:3]))
+        datasets.append(t)
+        W.t = t
+        pos = {k: j for j, k in enumerate(order)}
+        W.t_row_of_d = np.array([pos[k] for k in range(n)], dtype=int)
+    dc = DataCollection(datasets)
     dc.add_link(ComponentLink([d.id["w"]], g.id["x"], using=_triple))
-    W.g, W.u, W.dc = g, u, dc
+    for j, a in enumerate(perm):
+        dc.add_link(LinkSame(d.pixel_component_ids[a], pdat.pixel_component_ids[j]))
+    if W.t is not None:
+        d.join_on_key(W.t, "kd", "key")
+    W.g, W.u, W.dc, W.p, W.p_perm = g, u, dc, pdat, perm
     W.atts["lnk"], W.kinds["lnk"] = g.id["x"], "linked"
+    for nme in W.atts:
+        W.scale.setdefault(nme, 1.0)
     return W
 
 
@@ -142,6 +226,9 @@ def leaf_kinds(W):
         ks += LEAF_KINDS_1D
     if W.names("world"):
         ks += LEAF_KINDS_WORLD
+    if 0 in W.shape:
+        # nothing to start a flood fill from / to index; attribute bounds are arbitrary
+        ks = [k for k in ks if k not in ("floodfill", "element", "mask_attr", "cat2d", "catmulti")]
     return ks
 
 
@@ -153,6 +240,9 @@ def _finite_values(W, name):
 
 def pick_value(rng, W, name):
     a = _finite_values(W, name)
+    sc = W.scale.get(name, 1.0)
+    if sc != 1.0:
+        return float(a[rng.randrange(a.size)]) + sc * rng.choice([0.0, 0.0, 0.25, -0.25, 0.5])
     if W.kinds.get(name) in ("world", "derived", "linked"):
         # values of computed attributes carry evaluation-order rounding (1 ulp differences between a viewed and a full
         # evaluation): a bound that coincides with such a value is a rounding tie, on which the statements are silent.
@@ -165,7 +255,7 @@ def pick_interval(rng, W, name):
     x, y = pick_value(rng, W, name), pick_value(rng, W, name)
     lo, hi = min(x, y), max(x, y)
     if rng.random() < 0.3:
-        hi = hi + rng.choice([0.5, 1.0, 2.0])
+        hi = hi + W.scale.get(name, 1.0) * rng.choice([0.5, 1.0, 2.0])
     return lo, hi
 
 
@@ -192,6 +282,8 @@ def rand_roi(rng, W, xn, yn):
 
 def build_roi(r):
     t = r["t"]
+    if t == "undefined":
+        return RectangularROI()
     if t == "rect":
         return RectangularROI(r["xmin"], r["xmax"], r["ymin"], r["ymax"], theta=r.get("theta"))
     if t == "circ":
@@ -228,13 +320,146 @@ def close_leaf(rng, W, prev=None):
     return {"k": "multirange", "att": "big", "pairs": [list(pick_interval(rng, W, "big")) for _ in range(2)]}
 
 
-def rand_leaf(rng, W, kind=None):
+NUM_TYPES = {"py_float": float, "py_int": lambda x: int(round(x)), "np_float32": np.float32, "np_float64": np.float64,
+             "np_int64": lambda x: np.int64(round(x))}
+
+
+def _num(desc, key):
+    """The number stored under `key`, converted to the scalar type recorded next to it (Python / numpy scalars)."""
+    return NUM_TYPES[desc.get(key + "_type", "py_float")](desc[key])
+
+
+P_EDGE = 0.18      # share of leaves that take a falsy / extreme / unusual-but-legal parameter value
+
+
+def _edge(rng, W, d):
+    """Turn a regular leaf description into an edge variant of the same kind (records d['variant'])."""
+    k = d["k"]
+    if k in ("ineq", "ineq_rev", "ineq_world"):
+        v = rng.choice(["zero", "py_int", "np_float32", "np_int64", "np_float64"])
+        if v == "zero":
+            d["val"] = 0
+            d["val_type"] = "py_int"
+        else:
+            d["val_type"] = v
+    elif k == "range":
+        v = rng.choice(["degenerate", "reversed", "infinite", "nan", "np_scalars", "zero_zero"])
+        if v == "degenerate":
+            a = _finite_values(W, d["att"])
+            d["lo"] = d["hi"] = float(a[rng.randrange(a.size)])
+        elif v == "reversed":
+            d["lo"], d["hi"] = d["hi"] + W.scale.get(d["att"], 1.0), d["lo"]
+        elif v == "infinite":
+            d[rng.choice(["lo", "hi"])] = rng.choice([float("inf"), float("-inf")])
+        elif v == "nan":
+            d[rng.choice(["lo", "hi"])] = float("nan")
+        elif v == "np_scalars":
+            d["lo_type"], d["hi_type"] = "np_float64", rng.choice(["np_float32", "np_int64"])
+        else:
+            d["lo"], d["hi"], d["lo_type"], d["hi_type"] = 0, 0, "py_int", "py_int"
+    elif k == "multirange":
+        v = rng.choice(["empty_pairs", "reversed_pair", "duplicate_pair"])
+        if v == "empty_pairs":
+            d["pairs"] = []
+        elif v == "reversed_pair":
+            d["pairs"] = [[hi, lo] for lo, hi in d["pairs"]]
+        else:
+            d["pairs"] = d["pairs"] + [list(d["pairs"][0])]
+    elif k in ("roi2d", "roind", "roi2d_pix", "roi2d_world"):
+        v = rng.choice(["undefined", "zero_radius", "degenerate_rect", "two_vertices"])
+        r = d["roi"]
+        if v == "undefined":
+            d["roi"] = {"t": "undefined"}
+        elif v == "zero_radius":
+            d["roi"] = {"t": "circ", "xc": r.get("xc", r.get("xmin", 0.0)), "yc": r.get("yc", r.get("ymin", 0.0)), "r": 0.0}
+        elif v == "degenerate_rect":
+            x, y = r.get("xmin", r.get("xc", 0.0)), r.get("ymin", r.get("yc", 0.0))
+            d["roi"] = {"t": "rect", "xmin": x, "xmax": x, "ymin": y, "ymax": y + 1.0}
+        else:
+            d["roi"] = {"t": "poly", "vx": [0.0, 1.0], "vy": [0.0, 1.0]}
+    elif k == "catroi":
+        v = rng.choice(["no_categories", "absent_label"])
+        d["cats"] = [] if v == "no_categories" else list(d["cats"]) + ["zz"]
+    elif k == "category":
+        v = rng.choice(["no_codes", "float_codes", "duplicate_codes", "absent_code", "negative_code"])
+        d["codes"] = {"no_codes": [], "float_codes": [float(c) for c in d["codes"]],
+                      "duplicate_codes": list(d["codes"]) + [d["codes"][0]], "absent_code": list(d["codes"]) + [99],
+                      "negative_code": [-1] + list(d["codes"])}[v]
+    elif k == "cat2d":
+        v = rng.choice(["empty_dict", "empty_set"])
+        d["sel"] = {} if v == "empty_dict" else {c: [] for c in d["sel"]}
+    elif k == "catmulti":
+        v = rng.choice(["empty_dict", "empty_ranges"])
+        d["ranges"] = {} if v == "empty_dict" else {c: [] for c in d["ranges"]}
+    elif k == "mask":
+        v = rng.choice(["all_false", "all_true", "uint8", "int64", "float64", "nested_list", "fortran"])
+        if v == "all_false":
+            d["mask"] = np.zeros(W.shape, dtype=bool).tolist()
+        elif v == "all_true":
+            d["mask"] = np.ones(W.shape, dtype=bool).tolist()
+        else:
+            d["mask_as"] = v
+    elif k in ("slice", "pixslice") and d.get("ref") is None:
+        v = "no_slices"
+        d["slices"] = []
+    elif k == "element":
+        v = rng.choice(["no_indices", "none", "negative", "duplicate_unordered", "ndarray"])
+        n = int(np.prod(W.shape))
+        if v == "no_indices":
+            d["indices"] = []
+        elif v == "none":
+            d["indices"] = None
+        elif v == "negative":
+            d["indices"] = [-1 - rng.randrange(n)] + list(d["indices"])
+        elif v == "duplicate_unordered":
+            d["indices"] = list(reversed(d["indices"])) + list(d["indices"][:1])
+        else:
+            d["indices_as"] = v
+    elif k == "parsed":
+        v = rng.choice(["reduction_inside", "scalar_result"])
+        d["form"] = v
+    else:
+        return d
+    d["variant"] = v
+    return d
+
+
+def rand_leaf(rng, W, kind=None, edge=None):
+    d = _rand_leaf(rng, W, kind)
+    if edge is None:
+        edge = rng.random() < P_EDGE
+    if edge:
+        d = _edge(rng, W, d)
+    return d
+
+
+def near_copy(rng, W, desc):
+    """A selection of the same kind as `desc` on the large-magnitude attribute with freshly picked bounds: the bounds of
+    the two agree to a relative ~1e-9 .. 1e-7 but (usually) select different elements."""
+    return close_leaf(rng, W, desc if desc.get("att") == "big" and desc["k"] in ("range", "ineq", "multirange") else None)
+
+
+def join_leaf(rng, W):
+    """A selection defined on the joined table t (reached from d through the key join only)."""
+    k = rng.choice(["join_ineq", "join_range", "join_cat"])
+    a = np.asarray(W.t["tv"])
+    x, y = float(a[rng.randrange(a.size)]) + 0.25, float(a[rng.randrange(a.size)]) - 0.25
+    if k == "join_ineq":
+        return {"k": k, "op": rng.choice(["gt", "le"]), "val": x}
+    if k == "join_range":
+        return {"k": k, "lo": min(x, y), "hi": max(x, y) + 0.5}
+    return {"k": k, "cats": rng.sample(CATS[:3], rng.randint(1, 2))}
+
+
+def _rand_leaf(rng, W, kind=None):
     if kind is None:
         kind = rng.choice(leaf_kinds(W))
     num = W.numeric()
     nonworld = [n for n in num if W.kinds[n] != "world"]
     pix = W.names("pixel")
     wld = W.names("world")
+    if kind in ("ineq", "range", "multirange") and "dk" in W.atts and rng.random() < 0.06:
+        nonworld = num = ["dk"]
     if kind == "ineq":
         a = rng.choice(nonworld)
         return {"k": kind, "att": a, "op": rng.choice(list(OPS)), "val": pick_value(rng, W, a)}
@@ -323,7 +548,7 @@ def rand_leaf(rng, W, kind=None):
             return {"k": kind, "slices": [rand_slice_triple(rng, 3)], "ref": "g"}
         k = W.nd if rng.random() < 0.7 else rng.randint(1, W.nd)
         slices = [rand_slice_triple(rng, W.shape[i]) for i in range(k)]
-        if rng.random() < 0.12:
+        if rng.random() < 0.12 and 0 not in W.shape:
             # a backward slice along one axis (legal; selects the same kind of element set)
             i = rng.randrange(k)
             n = W.shape[i]
@@ -376,9 +601,15 @@ def build_leaf(W, desc):
     k = desc["k"]
     A = W.atts
     if k in ("ineq", "ineq_world"):
-        return InequalitySubsetState(A[desc["att"]], desc["val"], OPS[desc["op"]])
+        return InequalitySubsetState(A[desc["att"]], _num(desc, "val"), OPS[desc["op"]])
     if k == "ineq_rev":
-        return InequalitySubsetState(desc["val"], A[desc["att"]], OPS[desc["op"]])
+        return InequalitySubsetState(_num(desc, "val"), A[desc["att"]], OPS[desc["op"]])
+    if k == "join_ineq":
+        return InequalitySubsetState(W.t.id["tv"], desc["val"], OPS[desc["op"]])
+    if k == "join_range":
+        return RangeSubsetState(desc["lo"], desc["hi"], W.t.id["tv"])
+    if k == "join_cat":
+        return CategoricalROISubsetState(att=W.t.id["tc"], roi=CategoricalROI(list(desc["cats"])))
     if k == "ineq2":
         return InequalitySubsetState(A[desc["att"]], A[desc["att2"]], OPS[desc["op"]])
     if k == "ineq_link":
@@ -388,7 +619,7 @@ def build_leaf(W, desc):
     if k == "ineq_cat":
         return InequalitySubsetState(A[desc["att"]], desc["val"], OPS[desc["op"]])
     if k == "range":
-        return RangeSubsetState(desc["lo"], desc["hi"], A[desc["att"]])
+        return RangeSubsetState(_num(desc, "lo"), _num(desc, "hi"), A[desc["att"]])
     if k == "multirange":
         return MultiRangeSubsetState([tuple(p) for p in desc["pairs"]], A[desc["att"]])
     if k in ("roi2d", "roi2d_pix", "roi2d_world"):
@@ -410,7 +641,15 @@ def build_leaf(W, desc):
         return CategoricalMultiRangeSubsetState({c: [tuple(p) for p in v] for c, v in desc["ranges"].items()},
                                                 A[desc["cat"]], A[desc["num"]])
     if k == "mask":
-        return MaskSubsetState(np.array(desc["mask"], dtype=bool), W.d.pixel_component_ids)
+        m = np.array(desc["mask"], dtype=bool).reshape(W.shape)
+        how = desc.get("mask_as")
+        if how in ("uint8", "int64", "float64"):
+            m = m.astype(how)
+        elif how == "nested_list":
+            m = m.tolist()
+        elif how == "fortran":
+            m = np.asfortranarray(m)
+        return MaskSubsetState(m, W.d.pixel_component_ids)
     if k == "mask_attr":
         return MaskSubsetState(np.array(desc["mask"], dtype=bool), [A[n] for n in desc["cids"]])
     if k == "slice":
@@ -418,13 +657,22 @@ def build_leaf(W, desc):
     if k == "pixslice":
         return PixelSubsetState(W.d, [slice(*s) for s in desc["slices"]])
     if k == "element":
-        return ElementSubsetState(list(desc["indices"]), W.d if desc["with_data"] else None)
+        ind = desc["indices"]
+        if ind is not None:
+            ind = np.array(ind, dtype=np.int64) if desc.get("indices_as") == "ndarray" else list(ind)
+        return ElementSubsetState(ind, W.d if desc["with_data"] else None)
     if k == "floodfill":
         return FloodFillSubsetState(W.d, A[desc["att"]], tuple(desc["start"]), desc["thr"])
     if k == "empty":
         return SubsetState()
     if k == "parsed":
-        cmd = "({a} > %r) %s ({b} <= %r)" % (desc["va"], desc["join"], desc["vb"])
+        if desc.get("form") == "reduction_inside":
+            # element-wise result whose operands contain reductions over whole attributes
+            cmd = "({a} > np.nanmean({a})) %s ({b} <= 0.5 * ({b}.max() + %r))" % (desc["join"], desc["vb"])
+        elif desc.get("form") == "scalar_result":
+            cmd = "np.nanmax({a}) > %r" % (desc["va"],)
+        else:
+            cmd = "({a} > %r) %s ({b} <= %r)" % (desc["va"], desc["join"], desc["vb"])
         return ParsedSubsetState(ParsedCommand(cmd, {"a": A[desc["a"]], "b": A[desc["b"]]}))
     if k == "incompat":
         q = W.u.id["q"]
@@ -434,6 +682,84 @@ def build_leaf(W, desc):
             return RangeSubsetState(0, desc["val"], q)
         return MaskSubsetState(np.array([True, False, True, True]), W.u.pixel_component_ids)
     raise ValueError(k)
+
+
+# ------------------------------------------------------------------ more views
+EXT_VIEW_KINDS = ["np_int_mix", "neg_int_mix", "backward_slices", "neg_index_arrays", "index_arrays_2d", "bool_mask_fortran",
+                  "bool_mask_all_false", "np_all_int"]
+
+
+def make_view_ext(rng, shape, kind):
+    """Views beyond vf.common's: numpy integer scalars, negative integers, backward slices, index arrays with negative
+    entries / of 2-d shape, boolean masks with a non-C layout or selecting nothing."""
+    nd = len(shape)
+    if kind in ("np_int_mix", "np_all_int"):
+        base = common.make_view(rng, shape, "int_slice_mix" if (kind == "np_int_mix" and nd > 1) else "all_int")
+        typ = rng.choice([np.int64, np.int32, np.intp, np.uint8])
+        return tuple(typ(v) if isinstance(v, int) else v for v in base)
+    if kind == "neg_int_mix":
+        v = [common.rand_slice(rng, s) if rng.random() < 0.5 else rng.randrange(s) for s in shape]
+        i = rng.randrange(nd)
+        v[i] = -1 - rng.randrange(shape[i])
+        return tuple(v)
+    if kind == "backward_slices":
+        v = [common.rand_slice(rng, s) for s in shape]
+        i = rng.randrange(nd)
+        n = shape[i]
+        a, b = rng.randrange(0, n), rng.randrange(0, n)
+        v[i] = rng.choice([slice(None, None, -1), slice(None, None, -2), slice(max(a, b), None, -1),
+                           slice(max(a, b), min(a, b), -1), slice(None, min(a, b), -2), slice(max(a, b), None, -3)])
+        return tuple(v)
+    if kind == "neg_index_arrays":
+        k = rng.randint(1, 6)
+        return tuple(np.array([rng.randrange(-s, s) for _ in range(k)]) for s in shape)
+    if kind == "index_arrays_2d":
+        return tuple(np.array([rng.randrange(s) for _ in range(6)]).reshape(2, 3) for s in shape)
+    if kind == "bool_mask_fortran":
+        return with_layout(common.make_view(rng, shape, "bool_mask"), rng.choice(["F", "transposed", "reversed", "strided"]))
+    if kind == "bool_mask_all_false":
+        return np.zeros(shape, dtype=bool)
+    raise ValueError(kind)
+
+
+def invalid_view(rng, shape):
+    """A view that numpy itself rejects for this shape (used for fault sequences)."""
+    nd = len(shape)
+    kind = rng.choice(["int_out_of_range", "too_many_indices", "bool_mask_wrong_shape", "index_array_out_of_range"])
+    if kind == "int_out_of_range":
+        v = [slice(None)] * nd
+        i = rng.randrange(nd)
+        v[i] = shape[i] + rng.randint(0, 3)
+        return kind, tuple(v)
+    if kind == "too_many_indices":
+        return kind, tuple([0] * (nd + 1))
+    if kind == "bool_mask_wrong_shape":
+        return kind, np.ones(tuple(s + 1 for s in shape), dtype=bool)
+    return kind, tuple(np.array([0, s + 2]) for s in shape)
+
+
+# ------------------------------------------------------------------ chunk limits
+_CHUNK_LIMIT = [None]
+_PATCHED = [False]
+
+
+def set_chunk_limit(n):
+    """Make the chunked code paths of glue.core.subset / glue.core.roi (iterate_chunks(..., n_max=1000000)) use chunks of
+    at most n elements (None: the real constant).  Results must not depend on it: the constant is internal."""
+    if not _PATCHED[0]:
+        import glue.core.roi as roi_mod
+        import glue.core.subset as subset_mod
+        from glue.utils import iterate_chunks as real
+
+        def small_chunks(shape, chunk_shape=None, n_max=None):
+            if _CHUNK_LIMIT[0] is not None and n_max is not None:
+                n_max = min(n_max, _CHUNK_LIMIT[0])
+            return real(shape, chunk_shape=chunk_shape, n_max=n_max)
+        for mod in (roi_mod, subset_mod):
+            if getattr(mod, "iterate_chunks", None) is real:
+                mod.iterate_chunks = small_chunks
+        _PATCHED[0] = True
+    _CHUNK_LIMIT[0] = n
 
 
 # ------------------------------------------------------------------ fingerprints
